@@ -66,6 +66,11 @@ HEADERS = {"H1": "usage:", "H2": "USAGE:"}
 TABLES["H1"] = ([], "")
 TABLES["H2"] = ([], "")
 TABLES["H3"] = ([], "")      # first pattern on the `Usage:` line, the others on continuation lines below it
+# the same tables with the options section written ABOVE the usage section (docopt reads option descriptions from the
+# whole text: any line that starts with a dash)
+TABLES["P0"] = (OPTS, OPT_SECTION)
+TABLES["P3"] = (OPTS3, OPT_SECTION3)
+SECTION_FIRST = ("P0", "P3")
 
 
 def header_of(wo):
@@ -158,6 +163,8 @@ def script_text(lines, with_opts):
         u = "# %s prog %s\n" % (h, show(lines[0]))
     else:
         u = "# %s\n" % h + "".join("#   prog %s\n" % show(l) for l in lines)
+    if with_opts in SECTION_FIRST:
+        return "#!/usr/bin/env rash\n#\n# A tool.\n#\n" + section_of(with_opts) + "#\n" + u + "#\n- debug:\n    msg: x\n"
     return "#!/usr/bin/env rash\n#\n" + u + "#\n" + section_of(with_opts) + "- debug:\n    msg: x\n"
 
 
@@ -331,6 +338,25 @@ def family_usages():
     ipo, outo = o('ip', '--ip=<a.b.c.d>'), o('out', '-o FILE.EXT')
     for l in ([('seq', [opt(ipo), opt(x)])], [('seq', [('anyopts',), opt(x)])], [('seq', [opt(outo), opt(qf), x])], [('seq', [a, opt(ipo), opt(outo)])]):
         out.append((l, "T7", av16))
+    # F17: the options section ABOVE the usage section: short/long pairs, defaults, options reachable only through [options]
+    for l in ([('seq', [('anyopts',), x])], [('seq', [opt(sp), opt(q3), x])], [('seq', [a, ('anyopts',)])]):
+        out.append((l, "P3", av4))
+    for l in ([('seq', [opt(oo), opt(x)])], [('seq', [('anyopts',), opt(x)])], [('seq', [opt(f), ('rep', x)])]):
+        out.append((l, "P0", av11))
+    # F18: option values that are usage metacharacters (K48: `]`, `)` and `|` were also bound as a positional)
+    t18 = ['-o', ']', '--out=]', '--out', ')', '-o|', '|', '-o=)', '[', '--out=[', '(', 'v', '-q', '...', '-o...']
+    av18 = [list(t) for n in range(0, 4) for t in itertools.product(t18, repeat=n) if sum(1 for w in t if w.startswith('-')) <= 2]
+    for l in ([('seq', [opt(oo), opt(x)])], [('seq', [('anyopts',), opt(x)])], [('seq', [opt(oo), opt(qf), ('rep', x)])], [('seq', [a, opt(oo)])]):
+        out.append((l, True, av18))
+    # F19: an alternation inside a branch of another alternation (groups and optionals nested two deep)
+    cc, dd = ('cmd', 'c'), ('cmd', 'd')
+    alt = lambda *e: ('alt', list(e))
+    sq = lambda *e: ('seq', list(e))
+    grp = lambda e: ('group', e)
+    av19 = [list(t) for n in range(0, 4) for t in itertools.product(['a', 'b', 'c', 'd', 'v'], repeat=n)]
+    for l in ([sq(grp(alt(sq(a, opt(alt(b, cc))), dd)))], [sq(grp(alt(sq(a, grp(alt(b, cc))), dd)))], [sq(opt(alt(sq(a, grp(alt(b, cc))), dd)), x)], [sq(grp(alt(grp(alt(a, b)), cc)))],
+              [sq(grp(alt(a, grp(alt(b, cc)))))], [sq(opt(alt(sq(grp(alt(a, b)), x), cc)))], [sq(grp(alt(sq(a, opt(b)), dd)))], [sq(grp(alt(a, sq(b, opt(alt(cc, dd))))), opt(x))]):
+        out.append((l, False, av19))
     # F5: upper-case positionals, `<x> ...` with a blank before the dots
     F, G = ('pos', 'FILE'), ('pos', 'MY-ARG')
     av5 = [list(t) for n in range(0, 5) for t in itertools.product(['a', 'v', 'w'], repeat=n)]
